@@ -423,3 +423,19 @@ Proof.
   destruct (lim_cap_l n scripts sched) as (A & _). fold s in A.
   repeat split; auto. lia.
 Qed.
+
+(* ================================================================== *)
+(* a Get whose create() panics counts nothing                            *)
+
+Lemma pool_create_panic_l : forall s t th,
+  nth_error (pthreads s) t = Some th -> pcur th = Some PGetX -> ppcof th = PEnter -> plocked s = false ->
+  pidle s = [] -> pcreated s < plimit s ->
+  exists s', pstep s t = Some s' /\ pcreated s' = pcreated s /\ pidle s' = [] /\ plocked s' = false /\
+             pnext s' = pnext s /\ psig s' = psig s /\
+             nth_error (pthreads s') t =
+             Some (mkPT PIdle (pscript th) (S (popi th)) (pheld th) (pres th ++ [(-2)%Z])).
+Proof.
+  intros s t th Ht Ho Epc Hlk Hi Hc. unfold pstep. rewrite Ht, Ho, Epc, Hlk. eexists. split; [reflexivity|].
+  unfold pget. rewrite Hi. cbn [pdrain]. destruct (Nat.ltb_spec (pcreated s) (plimit s)); [|lia]. cbn.
+  repeat split; auto. eapply nth_error_upd_nth_eq; eauto.
+Qed.
